@@ -129,7 +129,7 @@ func (u Uniform) Rand() float64 {
 // Score will panic, and the derivative is stored in-place into deriv. If deriv
 // is nil a new slice will be allocated and returned.
 //
-// The order is [∂LogProb / ∂Mu, ∂LogProb / ∂Sigma].
+// The order is [∂LogProb / ∂Min, ∂LogProb / ∂Max].
 //
 // For more information, see https://en.wikipedia.org/wiki/Score_%28statistics%29.
 func (u Uniform) Score(deriv []float64, x float64) []float64 {
